@@ -3,7 +3,7 @@
    output prefix, loop bound and meaning of calls.  `let` -> `const` is the identity on the reference (one node, SLet).
    The compiler is tied to this by the metamorphic correspondence run of harness/c09.py. *)
 From Coq Require Import ZArith List Bool.
-From FV Require Import Core.Syntax Core.Sem Proofs.RewriteP.
+From FV Require Import Core.Syntax Core.Sem Proofs.RewriteP Proofs.CongrP.
 Import ListNotations.
 
 Theorem C09_if_true_wrap :
@@ -26,8 +26,55 @@ Theorem C09_pure_subexpr_no_output_partial :
 Proof. exact callfree_no_output. Qed.
 Print Assumptions C09_pure_subexpr_no_output_partial.
 
-(* The bind-subexpression rewrite itself (environment equivalence modulo the fresh name) and the lifting of these local
-   equalities to arbitrary program contexts are NOT proved; they are covered by the metamorphic runs only. *)
+(* --- lifting to whole programs.  `rle r r'`: r is r' unless r ran out of fuel.  Every single-hole context (an expression
+   position at any depth of an expression: operands, cast, call / by-value reference-call / struct-literal arguments, field
+   base; an expression or statement position at any depth of a statement: sequence, if, while, for bounds/step/body, block,
+   return, print argument) preserves the refinement order, under related meanings of calls. --- *)
+Theorem C09_context_refinement :
+  forall structs callf callf', cle callf callf' ->
+  forall s s' e e',
+    (forall k en out, rle (exec structs callf k s en out) (exec structs callf' k s' en out)) ->
+    (forall en out, rle (eval structs callf e en out) (eval structs callf' e' en out)) ->
+    forall C K k en out,
+      rle (exec structs callf k (splug K s (eplug C e)) en out) (exec structs callf' k (splug K s' (eplug C e')) en out).
+Proof. exact ctx_refinement. Qed.
+Print Assumptions C09_context_refinement.
+
+(* `if true { a } else { b }` at ANY statement position of ANY function of ANY program, replaced by `{ a }`: the same
+   outcome (output lines, termination kind) for every fuel *)
+Theorem C09_if_true_program :
+  forall structs p f fd K a b e, nth_error p f = Some fd ->
+  forall fuel, run structs (upd_body p f (splug K (SIf (EBool true) a b) e)) fuel =
+               run structs (upd_body p f (splug K (SBlock a) e)) fuel.
+Proof. exact if_true_program. Qed.
+Print Assumptions C09_if_true_program.
+
+(* a call `g()` of `fn g() -> t { return z; }` at ANY expression position of ANY statement of ANY other function, replaced
+   by the literal z (the rewrite of the property read right to left): whenever the program with the call finishes within
+   the fuel, the program with the literal has the same outcome with the same fuel.  (The converse needs one more unit of
+   fuel per call on the deepest call chain and is not proved.) *)
+Theorem C09_literal_as_call_program :
+  forall structs p f fd g t z K s C,
+  nth_error p f = Some fd -> g <> f ->
+  nth_error p g = Some {| fparams := []; fret := TInt t; fbody := SReturn (Some (ELit t z)) |} ->
+  forall fuel, run structs (upd_body p f (splug K s (eplug C (ECall g [])))) fuel <> OutOfFuel ->
+               run structs (upd_body p f (splug K s (eplug C (ELit t z)))) fuel =
+               run structs (upd_body p f (splug K s (eplug C (ECall g [])))) fuel.
+Proof. exact lit_call_program. Qed.
+Print Assumptions C09_literal_as_call_program.
+
+(* non-vacuity of the program-level statements: a two-function program whose main prints g() + 1 inside a loop body *)
+Theorem C09_program_nonvacuous :
+  let g := {| fparams := []; fret := TInt I32; fbody := SReturn (Some (ELit I32 7%Z)) |} in
+  let main := {| fparams := []; fret := TVoid; fbody := SSkip |} in
+  let K := KForB 1 I32 (ELit I32 0%Z) (ELit I32 2%Z) false (ELit I32 1%Z) (KPrint [] []) in
+  let C := CBinL Add CHole (ELit I32 1%Z) in
+  run [] (upd_body [g; main] 1 (splug K SSkip (eplug C (ECall 0 [])))) 5 = Done [[OInt 8%Z]; [OInt 8%Z]].
+Proof. vm_compute. reflexivity. Qed.
+Print Assumptions C09_program_nonvacuous.
+
+(* The bind-subexpression rewrite itself (environment equivalence modulo the fresh name) is NOT proved; it is covered by the
+   metamorphic runs only.  Rewrites at several sites compose by transitivity of `rle` (CongrP.rle_trans). *)
 
 Theorem C09_nonvacuous :
   exists structs callf k s en out r, exec structs callf k (SIf (EBool true) s SSkip) en out = Ok r out /\ s <> SSkip.
